@@ -43,7 +43,7 @@ def run(ctx, ck):
     ck.floor('scalar-potential differences', cnt['divisions'], 3)
     ck.floor('per-half selections in helpers', cnt['selections'], 9)
 
-    f = m.func(FILL)
+    f = ctx.flat(FILL)      # private helpers inlined, `x = self.attr` aliases written out
     fl = ctx.flow(f)
     ls = [l for l in loops_in(f.node) if isinstance(l, ast.For) and norm(l.iter) == 'self.image_iter()']
     if len(ls) != 1:
@@ -78,6 +78,16 @@ def run(ctx, ck):
     restr = set()
     def neg_branch(t):
         """which branch of a test on the image sign is taken for the image (k < 0)"""
+        if isinstance(t, ast.UnaryOp) and isinstance(t.op, ast.Not):
+            r_ = neg_branch(t.operand)
+            return None if r_ is None else ('orelse' if r_ == 'body' else 'body')
+        if isinstance(t, ast.Name) and t.id != kv:
+            # a flag holding the test: mirror = k < 0
+            ds_ = [a_ for a_ in walk_no_nested(l) if isinstance(a_, ast.Assign) and len(a_.targets) == 1 and
+                   isinstance(a_.targets[0], ast.Name) and a_.targets[0].id == t.id]
+            if len(ds_) == 1:
+                return neg_branch(ds_[0].value)
+            return None
         if not (isinstance(t, ast.Compare) and len(t.ops) == 1 and isinstance(t.left, ast.Name)
                 and t.left.id == kv):
             return None
@@ -100,6 +110,14 @@ def run(ctx, ck):
             r = fl.roots(neg, fl.node_id_of(s_))
             if ('attr', 'self.pulses.matrix_ground') in r:
                 restr.add(s_.targets[0].id)
+        elif isinstance(s_, ast.Assign) and isinstance(s_.targets[0], ast.Tuple) and isinstance(s_.value, ast.IfExp):
+            # a, b = (x, y) if <image> else (u, v)
+            nb = neg_branch(s_.value.test)
+            neg = None if nb is None else (s_.value.body if nb == 'body' else s_.value.orelse)
+            if isinstance(neg, ast.Tuple) and len(neg.elts) == len(s_.targets[0].elts):
+                for t_, v_ in zip(s_.targets[0].elts, neg.elts):
+                    if isinstance(t_, ast.Name) and ('attr', 'self.pulses.matrix_ground') in fl.roots(v_, fl.node_id_of(s_)):
+                        restr.add(t_.id)
         elif isinstance(s_, ast.If):
             nb = neg_branch(s_.test)
             if nb is None:
